@@ -19,7 +19,14 @@ CONTEXTS = {
     "after-open-link": "[[ AAq %s ZZq",
     "ref": "<ref>AAq %s ZZq</ref>",
     "deflist": "; t : AAq %s ZZq\n",
+    "caption": "{|\n|+ AAq %s ZZq\n|-\n| x\n|}\n",
+    "uc-arg": "{{uc:AAQ %s ZZQ}}",
+    "template-sibling": "{{N}} AAq %s ZZq {{S}}",
 }
+MARKERS = {"uc-arg": ("AAQ ", " ZZQ")}
+DB_CONTEXTS = ("template-arg", "ref", "uc-arg", "template-sibling")
+# bodies that consist of one delimiter only: a parser that looks at token text without its type takes them for markup
+DELIMITER_BODIES = ["|", "||", "!", "!!", "|-", "|+", "=", "}}", "{{", "]]", "[[", "*", ":", ";", "''", "----", "|}", "{|", "\n", " ", "<", ">", "&", "#"]
 
 META = dict(
     level="exploration",
@@ -27,7 +34,7 @@ META = dict(
         "Hypothesis draws (tag of {nowiki, pre, math, source, syntaxhighlight, timeline} in any letter case with optional blanks before "
         "'>', attributes, body = lexeme soup over the full alphabet (wiki markup, template calls, parameters, HTML and include-control "
         "tags, comments, well- and ill-formed entities) minus the tag's own closing tag and U+007F (for pre also minus <nowiki>), one of "
-        "10 embedding contexts, with a wiki database (expander path) or without). Oracle: the text carried by the tag's node equals the "
+        "13 embedding contexts (incl. table caption, parser-function argument, next to templates that hold opaque regions themselves), with a wiki database (expander path) or without). Oracle: the text carried by the tag's node equals the "
         "body - for nowiki/pre modulo a strict reference entity grammar in which every well-formed character reference matches itself or "
         "its character; the multiset of non-Text node classes equals that of the same context with a plain-word body; the uniq "
         "protect/restore round trip is the identity. Non-trivial: the body holds >= 1 markup lexeme that would build a node if interpreted."
@@ -76,6 +83,8 @@ def body_pattern(body):
 def valid_body(tag, body, context=None):
     if "\x7f" in body:
         return False
+    if context == "caption" and "\n" in body:
+        return False  # a caption is a one-line construct
     if context == "ref" and re.search(r"</ref", body, re.I):
         return False  # would close the surrounding <ref> of the context (as it does in MediaWiki), not an opacity question
     if re.search(r"</%s\s*>" % tag, body, re.I):
@@ -92,7 +101,7 @@ def valid_body(tag, body, context=None):
 def make_db(lang):
     from ..wikidb import WikiDB
 
-    return WikiDB(pages={"P": "x", "A": "a"}, lang=lang, templates={"E": "{{{1}}}", "T": "TT", "T2": "''t''"})
+    return WikiDB(pages={"P": "x", "A": "a"}, lang=lang, templates={"E": "{{{1}}}", "T": "TT", "T2": "''t''", "N": "<nowiki>[[n]]</nowiki>", "S": "<source lang=c>int ''x'';</source>"})
 
 
 def node_classes(tree):
@@ -131,9 +140,13 @@ def observe(tree, tag):
     return got
 
 
+KF_CAPTION = "caption-context:complex-tag-ends-the-caption"
+
+
 def check(ctx, case):
     tag, body, cname, lang, usedb = case["tag"], case["body"], case["context"], case["lang"], case["db"]
-    usedb = usedb or cname in ("template-arg", "ref")  # (a <ref> around the tag is only followed on the expander path)
+    usedb = usedb or cname in DB_CONTEXTS  # (a <ref> around the tag is only followed on the expander path)
+    left, right = MARKERS.get(cname, ("AAq ", " ZZq"))
     open_tag = "<%s%s%s>" % (case["spelling"], case["attrs"], case["blank"])
     close_tag = "</%s%s>" % (case["spelling"], case["blank"])
     src = CONTEXTS[cname] % (open_tag + body + close_tag)
@@ -141,6 +154,8 @@ def check(ctx, case):
     small = dict(case, src=src)
 
     def F(bucket, detail):
+        if cname == "caption" and tag != "nowiki" and "node-missing" in bucket:
+            bucket = KF_CAPTION  # open known finding: keeps its own bucket so that anything else is still reported
         ctx.fail(bucket, small, detail)
 
     try:
@@ -152,11 +167,13 @@ def check(ctx, case):
 
     if tag == "nowiki":
         alltext = "".join(n.caption for n in tree.allchildren() if n.__class__ is N.Text)
-        if not re.search("AAq " + body_pattern(body) + " ZZq", alltext, re.S):
+        if not re.search(re.escape(left) + body_pattern(body) + re.escape(right), alltext, re.S):
             why = classify(tag, body)
             return F("nowiki:body-changed" + why, "text in the tree %r, body %r" % (alltext, body))
     else:
         got = observe(tree, tag)
+        if cname == "template-sibling" and tag in ("source", "syntaxhighlight") and len(got) == 2 and got[1] == "int ''x'';":
+            got = got[:1]  # the second one is the sibling template's own region
         if len(got) != 1:
             return F("%s:node-missing-or-split" % tag + classify(tag, body), "found %d %s nodes (%r) for body %r" % (len(got), tag, got, body))
         if tag == "pre":
@@ -166,6 +183,15 @@ def check(ctx, case):
             ok = got[0] == body
         if not ok:
             return F("%s:body-changed" % tag + classify(tag, body), "node carries %r, body was %r" % (got[0], body))
+    # no protection marker may reach the tree, and the opaque regions of sibling templates keep their own bodies
+    for n in tree.allchildren():
+        cap = getattr(n, "caption", None)
+        if isinstance(cap, str) and "\x7fUNIQ-" in cap:
+            return F("%s:marker-leaked" % tag + classify(tag, body), "%s node carries %r" % (n.__class__.__name__, cap[:120]))
+    if cname == "template-sibling":
+        alltext = "".join(n.caption for n in tree.allchildren() if n.__class__ is N.Text)
+        if "[[n]] " + left not in alltext or not alltext.rstrip().endswith("int ''x'';"):
+            return F("%s:sibling-template-region-changed" % tag, "text in the tree %r" % alltext[:300])
     a, b = node_classes(tree), node_classes(ref)
     if a != b:
         extra = {k: a.get(k, 0) - b.get(k, 0) for k in set(a) | set(b) if a.get(k, 0) != b.get(k, 0)}
@@ -211,8 +237,12 @@ def cases(draw):
     tag = draw(st.sampled_from(TAGS))
     context = draw(st.sampled_from(sorted(CONTEXTS)))
     for _ in range(4):
-        lex = draw(S.soup(10))
-        body = "".join(l for _, l in lex)
+        if draw(st.integers(0, 5)) == 0:
+            body = draw(st.sampled_from(DELIMITER_BODIES))
+            lex = [("table", body)]
+        else:
+            lex = draw(S.soup(10))
+            body = "".join(l for _, l in lex)
         if valid_body(tag, body, context):
             break
     else:
@@ -234,9 +264,12 @@ def run_shard(ctx):
     @given(cases())
     def t(case):
         ctx.announce(case)
+        if case["context"] == "caption" and case["tag"] != "nowiki" and ctx.is_known_open(KF_CAPTION):
+            ctx.excluded += 1
+            return
         markup = [c for c in case["classes"] if c not in ("text", "free", "line", "control")]
         nt = bool(markup)
-        labels = ["tag:" + case["tag"], "ctx:" + case["context"], "db" if (case["db"] or case["context"] in ("template-arg", "ref")) else "no-db"]
+        labels = ["tag:" + case["tag"], "ctx:" + case["context"], "db" if (case["db"] or case["context"] in DB_CONTEXTS) else "no-db"]
         if nt:
             labels.append("nontrivial")
         labels += ["body:" + c for c in markup]
